@@ -233,6 +233,50 @@ func RunC12(env *sim.Env) {
 			continue
 		}
 		tout := Norm(T.Out)
+		// "was this call made inside a try body or inside exec()?" - read off the marks every try
+		// statement and every exec'd template of the world carries, not off the Runtime under test
+		// (whose current writer a changed implementation may redirect differently)
+		inTry := map[int]bool{}
+		{
+			// per try statement a stack of activations (the same statement can be active several times:
+			// a block that yields its caller's content, which yields the block again); true = body running
+			act := map[int][]bool{}
+			running := 0
+			execOpen := 0
+			for i, id := range T.Probes.IDs {
+				switch {
+				case id == gen.MarkExecOpen:
+					execOpen++
+				case id == gen.MarkExecOpen+1:
+					if execOpen > 0 {
+						execOpen--
+					}
+				case id >= gen.MarkTryOpen && id < gen.MarkRoot:
+					k, what := (id-gen.MarkTryOpen)/3, (id-gen.MarkTryOpen)%3
+					st := act[k]
+					switch what {
+					case 0:
+						act[k] = append(st, true)
+						running++
+					case 1: // the body failed, its catch body begins
+						if n := len(st); n > 0 && st[n-1] {
+							st[n-1] = false
+							running--
+						}
+					case 2: // the statement is over
+						if n := len(st); n > 0 {
+							if st[n-1] {
+								running--
+							}
+							act[k] = st[:n-1]
+						}
+					}
+				}
+				if running > 0 || execOpen > 0 {
+					inTry[i+1] = true
+				}
+			}
+		}
 		// first dynamic call per site, in order of first reach
 		type reach struct {
 			id    int
@@ -268,9 +312,14 @@ func RunC12(env *sim.Env) {
 				continue
 			}
 			first := r.calls[0]
-			if nested[first] {
+			if inTry[first] {
 				env.Stat("counters:sites_skipped_first_reached_inside_try_or_exec", 1)
 				continue
+			}
+			if nested[first] {
+				// the Runtime's writer is not the root writer although no try body and no exec() is open
+				// according to the marks: not judged by this oracle either way, but counted
+				env.Stat("probe:writer_redirected_outside_any_try_body_or_exec", 1)
 			}
 			// "everything rendered before the site" is read off the twin's final output (the site
 			// renders a visible token there), not off the writer's state at call time: the oracle must
@@ -355,7 +404,7 @@ func RunC12(env *sim.Env) {
 				if di >= 3 {
 					break
 				}
-				if nested[k] {
+				if inTry[k] {
 					continue
 				}
 				variant := map[string]string{}
